@@ -123,6 +123,8 @@ P_KINDS = {
     'mixed-br': '(a) and (b)',
     'round-angle': '(opens round, closes angle&gt;',
     'angle-round': '&lt;opens angle, closes round)',
+    'round-multiline': '(a note\n over two lines)',
+    'angle-multiline': '&lt;cue\n two&gt;',
 }
 
 
